@@ -39,10 +39,24 @@ func (f *Listx) Call(s *slip.Scope, args slip.List, depth int) (result slip.Obje
 	case 1:
 		result = args[0]
 	default:
-		list := make(slip.List, len(args))
-		copy(list, args)
-		list[len(list)-1] = slip.Tail{Value: list[len(list)-1]}
-		result = list
+		last := len(args) - 1
+		switch tail := args[last].(type) {
+		case nil:
+			// A list ending in nil is a proper list.
+			list := make(slip.List, last)
+			copy(list, args)
+			result = list
+		case slip.List:
+			// The last argument is the rest of the list.
+			list := make(slip.List, last, last+len(tail))
+			copy(list, args)
+			result = append(list, tail...)
+		default:
+			list := make(slip.List, len(args))
+			copy(list, args)
+			list[last] = slip.Tail{Value: tail}
+			result = list
+		}
 	}
 	return
 }
